@@ -20,3 +20,42 @@ Print Assumptions C10_src_sdbm_range.
 Example C10_src_nonvacuous : src_utility_sdbm_recognised = true -> src_utility_sdbm [97; 98] 18446744073709551615 = 97 * 65599 + 98 /\ src_utility_sdbm [97; 98] 1 = 97.
 Proof. intro H; xl_rec H. all: repeat split; vm_compute; reflexivity. Qed.
 
+
+(* ---------------------------------------------------------------------------------------------------------------------
+   Round 2 (notes/XLATE.md section 8): ApiListener::UpdateObjectAuthority (two regions) and ConfigObject::SetAuthority as
+   translated from /repo on this run (coq/Facts/Facts_fn_auth2.v).  The std::sort between the regions is not translated. *)
+From Icv Require Import Facts.Facts_fn_auth2 Src.SrcAuth2.
+
+(* the endpoints that count and the cold-start early return = au_select for a node with a local zone (30 s, strict) *)
+Theorem C10_src_select : src_update_authority_endpoints_recognised = true ->
+  forall p members me conn now start, au_p_window p = 30 -> au_p_strict p = true ->
+    au_select p (Some members) conn me now start
+    = let '(cold, eps) := src_update_authority_endpoints members me conn now start in if cold then AuCold else AuBy (au_sort eps).
+Proof. exact src_update_authority_select. Qed.
+Print Assumptions C10_src_select.
+
+(* the authority of one object = au_auth_of: true without a zone, otherwise "the endpoint at SDBM(name) mod size is this endpoint" *)
+Theorem C10_src_decision : src_update_authority_decision_recognised = true -> src_utility_sdbm_recognised = true ->
+  forall p eps me name npos, Z.of_nat (length name) <= npos -> Z.of_nat (length name) < xl_W64 ->
+    Some (src_update_authority_decision false eps me (map (au_char (au_p_signed p)) name) npos) = au_auth_of p AuAll me name /\
+    Some (src_update_authority_decision true eps me (map (au_char (au_p_signed p)) name) npos) = au_auth_of p (AuBy eps) me name.
+Proof. exact src_update_authority_decision_eq. Qed.
+Print Assumptions C10_src_decision.
+
+(* SetAuthority: the paused flag of au_set_authority, one Resume() / Pause() call exactly when the flag flips *)
+Theorem C10_src_set_authority : src_configobject_set_authority_recognised = true ->
+  forall authority o,
+    src_configobject_set_authority authority (au_o_paused o)
+    = (au_o_paused (au_set_authority authority o),
+       if authority && au_o_paused o then [XauResume] else if negb authority && negb (au_o_paused o) then [XauPause] else []) /\
+    au_o_resumes (au_set_authority authority o) = au_o_resumes o + (if authority && au_o_paused o then 1 else 0) /\
+    au_o_pauses (au_set_authority authority o) = au_o_pauses o + (if negb authority && negb (au_o_paused o) then 1 else 0).
+Proof. exact src_configobject_set_authority_eq. Qed.
+Print Assumptions C10_src_set_authority.
+
+Example C10_src_round2_nonvacuous : src_update_authority_endpoints_recognised = true -> src_configobject_set_authority_recognised = true ->
+  (* two members, the peer is not connected: cold within 30 s of the start, not after *)
+  src_update_authority_endpoints [[97]; [98]] [97] (fun _ => false) 129 100 = (true, [[97]]) /\
+  src_update_authority_endpoints [[97]; [98]] [97] (fun _ => false) 130 100 = (false, [[97]]) /\
+  src_configobject_set_authority true true = (false, [XauResume]).
+Proof. intros H1 H2; xl_rec H1; xl_rec H2. all: repeat split; vm_compute; reflexivity. Qed.
